@@ -35,6 +35,23 @@ def elem(cont, q="q0"):
     return Sym("at", vkey(cont), Poly.atom(q).key())
 
 
+def _subkeys(k):
+    out = {k}
+    if isinstance(k, tuple):
+        for x in k:
+            out |= _subkeys(x)
+    return out
+
+
+def _subst_prefix(k, prefix, new):
+    """replace every sub-key that is a tuple starting with `prefix` (whatever follows, e.g. an expect message) by `new`"""
+    if isinstance(k, tuple):
+        if k[:len(prefix)] == prefix:
+            return new
+        return tuple(_subst_prefix(x, prefix, new) for x in k)
+    return k
+
+
 def run(ck, facts, tier, only=None):
     """only: None or a set of rule ids to run (when included by C04/C05: the eligibility predicates R06.0-R06.2)"""
     hk = dict(date_hooks(), **{"@elem": gather.container_elem})
@@ -118,29 +135,64 @@ def run(ck, facts, tier, only=None):
         name = Sym("param", "name")
         got = cel.Ev(facts, hooks=hk3).apply_fn(fn, [name], 0)
         lower = Sym("m", "to_lowercase", vkey(name), ())
-        parts = Sym("m", "collect", vkey(Sym("m", "split", vkey(lower), (vkey(Sym("lit", "|")),))), ())
-        n = Poly.atom(("len", parts.key(), None))
-        part = lambda i: Sym("at", vkey(parts), Poly.const(i).key())       # parts[i]: element i of the collected pieces (strings)
-        mk = lambda settle: Sym("ctor", "Ok", Rec(NC, {"name": lower, "union_cal": Rec(UC, {"calendars": Sym("parse_cals", vkey(part(0))), "settlement_calendars": settle})}))
-        gt2 = paths.lit(cel.cmp_sym("Gt", n, Poly.const(2), True))
-        eq1 = paths.lit(cel.cmp_sym("Eq", n, Poly.const(1)))
+        split = Sym("m", "split", vkey(lower), (vkey(Sym("lit", "|")),))
+        parts = Sym("m", "collect", vkey(split), ())
+        # The number of '|'-pieces n (>= 1 always) is what every spelling tests: `parts.len() > 2` / `== 1`, a slice pattern `[a]` / `[a, b]`, `parts.get(1)`
+        # being Some, or the k-th pull from the split iterator being Some. Each path is classified by the set of n it admits (value-set over 1..4), each
+        # leaf compared after writing every way of naming piece k as one symbol.
+        nvar = ("len", vkey(parts), None)
+
+        def admits(cset):
+            """set of n in 1..4 the path's literals allow, or None if a literal about the pieces is not understood"""
+            feas, rest = paths.int_feasible(cset, nvar, range(1, 5))
+            feas = set(feas)
+            for a_, pol in rest:
+                cond = None
+                if isinstance(a_, tuple) and a_[:2] == ("arm", ("Some", "_")) and isinstance(a_[2], tuple):
+                    t_ = a_[2]
+                    if t_[:2] == ("sym", "nth") and t_[2] == vkey(split):
+                        cond = lambda n, k=t_[3]: n >= k + 1                      # the (k+1)-th pull yields an item
+                    elif t_[:3] == ("sym", "m", "get") and t_[3] == vkey(parts) and len(t_[4]) == 1 and cel.poly_from_key(t_[4][0]).const_value() is not None:
+                        cond = lambda n, k=int(cel.poly_from_key(t_[4][0]).const_value()): n >= k + 1
+                elif isinstance(a_, tuple) and a_[:1] == ("arm",) and isinstance(a_[1], tuple) and a_[1][:1] == ("slice",) and a_[2] == vkey(parts):
+                    _, nb, mid, na = a_[1]
+                    cond = (lambda n, m=nb + na: n >= m) if mid else (lambda n, m=nb + na: n == m)
+                if cond is None:
+                    if vkey(split) in _subkeys(a_):
+                        return None
+                    continue
+                feas = {n for n in feas if cond(n) == pol}
+            return feas
+
+        def piece_norm(k):
+            for i in range(3):
+                ik = Poly.const(i).key()
+                for form in (Sym("at", vkey(parts), ik), Sym("payload", vkey(Sym("m", "get", vkey(parts), (ik,))), 0), Sym("payload", vkey(Sym("nth", vkey(split), i)), 0)):
+                    k = cel.key_subst(k, vkey(form), ("piece", i))
+                for mm in ("expect", "unwrap"):
+                    k = _subst_prefix(k, ("sym", "m", mm, vkey(Sym("nth", vkey(split), i))), ("piece", i))
+            return k
+        mk = lambda settle: piece_norm(vkey(Sym("ctor", "Ok", Rec(NC, {"name": lower, "union_cal": Rec(UC, {"calendars": Sym("parse_cals", vkey(Sym("at", vkey(parts), Poly.const(0).key()))),
+                                                                                                              "settlement_calendars": settle})}))))
+        want = {1: mk(Sym("ctor", "None")), 2: mk(Sym("ctor", "Some", Sym("parse_cals", vkey(Sym("at", vkey(parts), Poly.const(1).key())))))}
         ps = paths.flatten(got)
-        by = {}
+        by = {1: [], 2: [], 3: [], 4: []}
+        unknown = False
         for c, v in ps:
-            dc = dict(c)
-            if dc.get(gt2[0]) is gt2[1]:
-                by["gt2"] = v
-            elif dc.get(eq1[0]) is eq1[1]:
-                by["one"] = v
-            else:
-                by["two"] = v
-        ck.check(r3, "more-than-one-pipe", isinstance(by.get("gt2"), Sym) and by["gt2"].tag[:2] == ("ctor", "Err"), "more than one '|' is not rejected with Err", where,
-                 detail=paths.fmt_paths(got)[:400], sample="parts.len() > 2 -> Err")
-        ck.check(r3, "no-pipe", by.get("one") is not None and vkey(by["one"]) == vkey(mk(Sym("ctor", "None"))), "a name without '|' does not give calendars = parse(part 0), no settlement calendars, name lower-cased",
-                 where, detail=cel.vfmt(by.get("one"))[:500] if by.get("one") is not None else None, sample="Ok{name: lower, calendars: parse(parts[0]), settlement: None}")
-        ck.check(r3, "one-pipe", by.get("two") is not None and vkey(by["two"]) == vkey(mk(Sym("ctor", "Some", Sym("parse_cals", vkey(part(1)))))),
+            adm = admits(c)
+            if adm is None:
+                unknown = True
+                continue
+            for n_ in adm:
+                by[n_].append(v)
+        is_err = lambda v: isinstance(v, Sym) and v.tag[:2] == ("ctor", "Err")
+        ck.check(r3, "more-than-one-pipe", not unknown and all(by[n_] and all(is_err(v) for v in by[n_]) for n_ in (3, 4)), "more than one '|' is not rejected with Err", where,
+                 detail=paths.fmt_paths(got)[:400], sample="3 or more pieces -> Err")
+        ck.check(r3, "no-pipe", not unknown and len(by[1]) == 1 and piece_norm(vkey(by[1][0])) == want[1], "a name without '|' does not give calendars = parse(part 0), no settlement calendars, name lower-cased",
+                 where, detail=cel.vfmt(by[1][0])[:500] if by[1] else None, sample="Ok{name: lower, calendars: parse(parts[0]), settlement: None}")
+        ck.check(r3, "one-pipe", not unknown and len(by[2]) == 1 and piece_norm(vkey(by[2][0])) == want[2],
                  "a name with one '|' does not give calendars = parse(part 0) and settlement calendars = parse(part 1)", where,
-                 detail=cel.vfmt(by.get("two"))[:500] if by.get("two") is not None else None, sample="Ok{calendars: parse(parts[0]), settlement: Some(parse(parts[1]))}")
+                 detail=cel.vfmt(by[2][0])[:500] if by[2] else None, sample="Ok{calendars: parse(parts[0]), settlement: Some(parse(parts[1]))}")
     except Unsupported as e:
         ck.fail(r3, "try_new", "rule could not be established (%s)" % e, where)
     fn = "calendars::calendar::parse_cals"
